@@ -161,6 +161,24 @@ func CheckInvariants(a *App, st *AppState, c InvCtx) []core.Violation {
 			entries[hx(ad)] = append(entries[hx(ad)], string(kv.K))
 		}
 	}
+	// ... and nobody else is queued: an entry for a validator that is not unstaking (any more) would release
+	// it, or whoever re-uses the address, at a time nobody asked for
+	qaddrs := make([]string, 0, len(entries))
+	for ah := range entries {
+		qaddrs = append(qaddrs, ah)
+	}
+	sort.Strings(qaddrs)
+	for _, ah := range qaddrs {
+		v, ok := st.Vals[ah]
+		if !ok || v.Status != sdk.Unstaking {
+			status := "no-record"
+			if ok {
+				status = v.Status.String()
+			}
+			rep("C06/q-stale/"+ah, status, viol("C06", "unstaking-queue", c.Step, map[string]string{"phase": c.Phase, "what": "entry-not-unstaking", "status": status},
+				"the unstaking queue lists %s, which is not an unstaking validator (%s)", ah, status))
+		}
+	}
 	for _, ah := range addrs {
 		v := st.Vals[ah]
 		if v.Status == sdk.Unstaking && len(entries[ah]) > 1 {
